@@ -66,7 +66,7 @@ func genC19(seed int64, tier string, out *Writer) {
 	if tier == "thorough" {
 		n = 1500
 	}
-	restrs := []string{"none", "none", "none", "only-target", "only-other", "not-target", "not-other", "substvar"}
+	restrs := []string{"none", "none", "none", "only-target", "only-other", "not-target", "not-other", "not-target2", "substvar"}
 	for g := 0; g < n; g++ {
 		ns := 1 + r.Intn(12)
 		type src struct {
@@ -148,6 +148,8 @@ func renderAltGo(a J) string {
 		return n + " [!amd64]"
 	case "not-other":
 		return n + " [!i386 !arm64]"
+	case "not-target2":
+		return n + " [!i386 !amd64]"
 	}
 	return n
 }
